@@ -1114,8 +1114,8 @@ class Choice(object):
                 # check for context encoding
                 if element.context is None:
                     raise NotImplementedError("choice of a SequenceOf must be context encoded")
-                # match the context tag number
-                if tag.tagClass != Tag.contextTagClass or tag.tagNumber != element.context:
+                # match the opening tag (Choice.encode wraps the list in opening/closing tags)
+                if tag.tagClass != Tag.openingTagClass or tag.tagNumber != element.context:
                     continue
                 taglist.Pop()
 
@@ -1123,8 +1123,9 @@ class Choice(object):
                 helper = element.klass()
                 helper.decode(taglist)
 
-                # now save the value
-                foundElement[element.name] = helper.value
+                # save the list object itself: Choice.encode and dict_contents
+                # expect an instance of the element class
+                foundElement[element.name] = helper
 
                 # check for context closing tag
                 tag = taglist.Pop()
